@@ -2,6 +2,7 @@
    layouts: the transcription over trees does, on the tree of a layout, what WrapSpec says on
    the layout. *)
 From V.model Require Import Base Deb822Lex Deb822Parse Grammar Lossy LossySpec Deb822Edit LiveDoc Deb822Wrap WrapSpec.
+From V.model Require Export WrapSpecInst.
 From V.proofs Require Import BaseP GrammarLexP GrammarParseP GrammarAccP LiveDocP LiveParaP.
 From Coq Require Import Permutation.
 
@@ -123,10 +124,6 @@ Proof.
   apply sort_by_map. exact H.
 Qed.
 
-(* ---------------------------------------------------------------- Entry::wrap_and_sort on a field *)
-(* the value tokens of (whitespace, first line, continuation lines) *)
-Definition triple_toks (w first : str) (conts : list str) : list token :=
-  opt_tok WHITESPACE w ++ opt_tok VALUE first ++ flat_map (fun t => [(NEWLINE, [LF]); (VALUE, t)]) conts.
 
 Definition vpart (c : tree) : bool :=
   match c with Tok (VALUE | WHITESPACE | NEWLINE | INDENT | COMMENT) _ => true | _ => false end.
@@ -234,7 +231,6 @@ Qed.
 
 (* ---- rebuild_value on the tokens of a value ---- *)
 Definition line_toks (ls : list str) : list token := flat_map (fun t => [(NEWLINE, [LF]); (VALUE, t)]) ls.
-Definition nonempty_line (t : str) : bool := negb (is_nil t).
 
 Lemma fll_triple w first conts kl :
   first_line_len (triple_toks w first conts) kl = (utf8_size w + utf8_size first + kl + 2)%N.
@@ -329,15 +325,6 @@ Definition conts_nonempty (f : field) : bool := forallb (fun ct => nonempty_line
 Lemma conts_nonempty_map f : conts_nonempty f = true -> forallb nonempty_line (map snd (f_cont f)) = true.
 Proof. unfold conts_nonempty. induction (f_cont f) as [|x r IH]; [reflexivity|]. cbn [forallb map]. intros H. apply andb_true_iff in H. destruct H as [H1 H2]. rewrite H1, (IH H2). reflexivity. Qed.
 
-(* the formatter's output lexes to the tokens of the value it is read as *)
-Definition fmt_lexes (fmt : option (str -> str -> str)) (f : field) : Prop :=
-  match fmt with
-  | None => True
-  | Some g =>
-    let o := g (f_name f) (value_text (field_ws0 f) (f_first f) (map snd (f_cont f))) in
-    let '(w, first, conts) := parse_value o in
-    fmt_tokens fixed o = Ok (triple_toks w first conts) /\ forallb nonempty_line conts = true
-  end.
 
 Lemma utf8_len_pos c : (1 <= utf8_len c)%N.
 Proof. unfold utf8_len. destruct (c <? 128)%N; [lia|]. destruct (c <? 2048)%N; [lia|]. destruct (c <? 65536)%N; lia. Qed.
@@ -648,10 +635,6 @@ Proof.
   - induction its as [|it r IH]; [reflexivity|]. destruct it; cbn [fields_of flat_map item_pairs app map]; [f_equal|]; exact IH.
 Qed.
 
-Definition paras_of (l : ldocl) : list (list item) :=
-  flat_map (fun b => match b with LPara its => [its] | _ => [] end) l.
-Definition on_items (cmp : para_cmp) (a b : list item) : comparison :=
-  cmp (flat_map item_pairs a) (flat_map item_pairs b).
 
 Lemma group_blocks_paras l : forall cur, map snd (fst (group_blocks l cur)) = paras_of l.
 Proof.
@@ -822,8 +805,6 @@ Proof.
   apply wf_items_app_intro; [exact H1|]. cbn [wf_items]. rewrite H2. reflexivity.
 Qed.
 
-Definition items_shaped (fmt : option (str -> str -> str)) (its : list item) : Prop :=
-  forall f, In (IField f) its -> fmt_shaped_on fmt f = true.
 
 Theorem wf_a_ws_items c ecmp fmt its more :
   ind_ok c = true -> wf_items its more = true -> items_shaped fmt its ->
@@ -1266,10 +1247,6 @@ Proof.
 Qed.
 
 
-(* what makes a second application of the field step a no-op, and the comparator see the same thing *)
-Definition field_stable (c : wcfg) (fmt : option (str -> str -> str)) (f : field) : Prop :=
-  a_ws_field c fmt (a_ws_field c fmt f) = a_ws_field c fmt f /\
-  field_pair (a_ws_field c fmt f) = a_pair fmt f.
 
 Lemma a_ws_items_is_canon c ecmp fmt its :
   pair_cmp_consistent ecmp ->
@@ -1561,8 +1538,6 @@ Qed.
 (* ---------------------------------------------------------------- assembling the document-level statements *)
 Definition doc_fields_ok (fmt : option (str -> str -> str)) (l : ldocl) : Prop :=
   forall its f, In (LPara its) l -> In (IField f) its -> field_ok fmt f.
-Definition doc_shaped (fmt : option (str -> str -> str)) (l : ldocl) : Prop :=
-  forall its f, In (LPara its) l -> In (IField f) its -> fmt_shaped_on fmt f = true.
 
 Lemma lwf_para_wf l : forall its, lwf l = true -> In (LPara its) l -> exists m, wf_items its m = true.
 Proof.
@@ -1687,21 +1662,10 @@ Section Top.
   Qed.
 
   (* a second application changes nothing *)
-  Definition stable_on (l : ldocl) : Prop :=
-    forall its f, In (LPara its) l -> In (IField f) its ->
-      field_stable c fmt f /\ fmt_lexes fmt (a_ws_field c fmt f).
-  Definition ecmp_invariant_on (l : ldocl) : Prop :=
-    forall its f g, In (LPara its) l -> In (IField f) its -> In (IField g) its ->
-      match ecmp with Some e => e (a_pair fmt f) (a_pair fmt g) = e (field_pair f) (field_pair g) | None => True end.
-  Definition pcmp_invariant_on (l : ldocl) : Prop :=
-    forall a b, In (LPara a) l -> In (LPara b) l ->
-      match pcmp with
-      | Some p => p (spec_para ecmp fmt a) (spec_para ecmp fmt b) = p (flat_map item_pairs a) (flat_map item_pairs b)
-      | None => True
-      end.
+  (* stable_on, ecmp_invariant_on, pcmp_invariant_on: model/WrapSpecInst.v *)
 
-  Theorem a_std_idem l : doc_fields_ok fmt l -> stable_on l ->
-    pair_cmp_consistent ecmp -> para_cmp_consistent pcmp -> ecmp_invariant_on l -> pcmp_invariant_on l ->
+  Theorem a_std_idem l : doc_fields_ok fmt l -> stable_on c fmt l ->
+    pair_cmp_consistent ecmp -> para_cmp_consistent pcmp -> ecmp_invariant_on ecmp fmt l -> pcmp_invariant_on pcmp ecmp fmt l ->
     a_std (a_std l) = a_std l.
   Proof.
     intros Hok Hst Hce Hcp Hie Hip. unfold a_std. apply a_ws_doc_idem; [exact Hcp| |].
@@ -1712,8 +1676,8 @@ Section Top.
       + intros f g Hf Hg. apply (Hie its f g Hi Hf Hg).
   Qed.
 
-  Theorem std_ws_idem l : doc_fields_ok fmt l -> stable_on l ->
-    pair_cmp_consistent ecmp -> para_cmp_consistent pcmp -> ecmp_invariant_on l -> pcmp_invariant_on l ->
+  Theorem std_ws_idem l : doc_fields_ok fmt l -> stable_on c fmt l ->
+    pair_cmp_consistent ecmp -> para_cmp_consistent pcmp -> ecmp_invariant_on ecmp fmt l -> pcmp_invariant_on pcmp ecmp fmt l ->
     std_ws' (ltree_of (a_std l)) = Ok (ltree_of (a_std l)).
   Proof.
     intros Hok Hst Hce Hcp Hie Hip. rewrite std_ws_commute.
